@@ -154,7 +154,7 @@ fn spawn_probe_terminal(role: u8, cfg: SpawnCfg, order: u8, detached: bool) -> O
     if amb.stream {
         let mut b = hannibal::build(Probe::<0>::new(role));
         if let Some((t, fail)) = cfg.timeout {
-            b = b.timeout(Duration::from_millis(t as u64)).fail_on_timeout(fail);
+            b = b.timeout(crate::world::ms(t)).fail_on_timeout(fail);
         }
         let never = HStream::default();
         return match cfg.mailbox {
@@ -164,7 +164,7 @@ fn spawn_probe_terminal(role: u8, cfg: SpawnCfg, order: u8, detached: bool) -> O
     }
     let mut b = hannibal::build(Probe::<0>::new(role));
     if let Some((t, fail)) = cfg.timeout {
-        let t = Duration::from_millis(t as u64);
+        let t = crate::world::ms(t);
         match order {
             0 => b = b.timeout(t).fail_on_timeout(fail),
             1 => b = b.fail_on_timeout(fail).timeout(t),
@@ -176,8 +176,8 @@ fn spawn_probe_terminal(role: u8, cfg: SpawnCfg, order: u8, detached: bool) -> O
         Mailbox::B(n) => b.bounded(n),
     };
     let b = match (cfg.timeout, order) {
-        (Some((t, fail)), 2) => b.timeout(Duration::from_millis(t as u64)).fail_on_timeout(fail),
-        (Some((t, fail)), 3) => b.fail_on_timeout(fail).timeout(Duration::from_millis(t as u64)),
+        (Some((t, fail)), 2) => b.timeout(crate::world::ms(t)).fail_on_timeout(fail),
+        (Some((t, fail)), 3) => b.fail_on_timeout(fail).timeout(crate::world::ms(t)),
         _ => b,
     };
     match cfg.strat {
@@ -306,14 +306,14 @@ pub fn spawn_probe_on_stream(role: u8, via: StreamVia, prefill: &[u32], close: b
         StreamVia::BuildOnStream => {
             let mut b = hannibal::build(probe);
             if let Some((t, fail)) = timeout {
-                b = b.timeout(Duration::from_millis(t as u64)).fail_on_timeout(fail);
+                b = b.timeout(crate::world::ms(t)).fail_on_timeout(fail);
             }
             OwningOrAddr::Own(b.on_stream(st).spawn_owning())
         }
         StreamVia::BoundedOnStream(n) => {
             let mut b = hannibal::build(probe);
             if let Some((t, fail)) = timeout {
-                b = b.timeout(Duration::from_millis(t as u64)).fail_on_timeout(fail);
+                b = b.timeout(crate::world::ms(t)).fail_on_timeout(fail);
             }
             OwningOrAddr::Own(b.bounded_on_stream(n, st).spawn_owning())
         }
